@@ -127,6 +127,7 @@ class Unit:
         self.path = None
         self.noderive = False
         self.implspec = {}
+        self.expects = []
 
     def fns(self):
         return [it[1] for it in self.items if it[0] == 'fn']
@@ -192,6 +193,10 @@ def parse(path, include_dir):
                     i += 1
                 i += 1
                 u.implspec[rs_norm(rest)] = block
+                continue
+            if d == '@expect':
+                m = re.match(r'^(\S+)\s+' + BT + '$', rest)
+                u.expects.append((m.group(1), m.group(2)))
                 continue
             if d == '@noderive':
                 u.noderive = True
